@@ -885,6 +885,20 @@ fn main() {
                     fail(format!("{n} line strings ending in the query point: {:?}, expected {:?}", got, want));
                 }
             }
+            // fixed-size shapes: corners and end points count once
+            use geo_types::Rect;
+            let r = Rect::new(c(1, 1), c(5, 4));
+            for ((x, y), want) in [((1, 1), CoordPos::OnBoundary), ((5, 4), CoordPos::OnBoundary), ((1, 4), CoordPos::OnBoundary), ((3, 1), CoordPos::OnBoundary), ((3, 2), CoordPos::Inside), ((0, 2), CoordPos::Outside), ((6, 4), CoordPos::Outside)] {
+                if r.coordinate_position(&c(x, y)) != want {
+                    fail(format!("rect, query ({x}, {y}): {:?}, expected {:?}", r.coordinate_position(&c(x, y)), want));
+                }
+            }
+            let l = Line::new(c(0, 0), c(6, 4));
+            for ((x, y), want) in [((0, 0), CoordPos::OnBoundary), ((6, 4), CoordPos::OnBoundary), ((3, 2), CoordPos::Inside), ((3, 1), CoordPos::Outside), ((9, 6), CoordPos::Outside)] {
+                if l.coordinate_position(&c(x, y)) != want {
+                    fail(format!("line, query ({x}, {y}): {:?}, expected {:?}", l.coordinate_position(&c(x, y)), want));
+                }
+            }
             // the non-relate Contains impls built on it
             use geo::Contains;
             use geo_types::{MultiPoint, Point};
